@@ -4,6 +4,7 @@ from __future__ import annotations
 import copy
 
 import common as C
+import fault_probes as FP
 import engine_common as E
 import engine_extract
 from engine_common import M, seq
@@ -259,8 +260,60 @@ class Gen:
         self.queue = [E.number(s) for s in out]
 
 
+def dropped_message_probe(rng, n):
+    """Implementation-only probe of the preprocessor clause: msg_mutator with a processor that DROPS messages (returns
+    None, as stub_wrapper does for open_run / close_run / stage / unstage): a dropped message is answered with None, every
+    other message with the response to itself."""
+    from bluesky.preprocessors import msg_mutator, stub_wrapper
+    from bluesky.utils import Msg
+
+    bad = []
+    for case_no in range(n):
+        k = rng.randrange(1, 9)
+        use_stub = rng.random() < 0.3
+        if use_stub:
+            cmds = [(rng.choice(["open_run", "close_run", "stage", "unstage", "read", "set", "null", "save"]), None) for _ in range(k)]
+            cmds = [(c, c in ("open_run", "close_run", "stage", "unstage")) for c, _ in cmds]
+        else:
+            cmds = [(rng.choice(["read", "set", "null", "trigger", "x"]), rng.random() < 0.4) for _ in range(k)]
+        got = []
+
+        def plan(cmds=cmds, got=got):
+            for i, (c, _) in enumerate(cmds):
+                got.append((yield Msg(c, None, i)))
+            return "ret"
+
+        g = stub_wrapper(plan()) if use_stub else msg_mutator(plan(), lambda m, cmds=cmds: None if cmds[m.args[0]][1] else m)
+        seen, ret = [], None
+        try:
+            m = next(g)
+            while True:
+                seen.append(m.args[0])
+                m = g.send(("resp", m.args[0]))
+        except StopIteration as e:
+            ret = e.value
+        want = [None if d else ("resp", i) for i, (_, d) in enumerate(cmds)]
+        case = {"probe": "dropped-message", "cmds": cmds, "stub_wrapper": use_stub}
+        if got != want:
+            first = next(i for i in range(len(want)) if i >= len(got) or got[i] != want[i])
+            kind = "dropped" if cmds[first][1] else "kept"
+            bad.append((f"preprocessor:{kind}-message-got-wrong-response", f"{'stub_wrapper' if use_stub else 'msg_mutator(drop)'} over {cmds}: yield #{first} ({kind}) received {got[first] if first < len(got) else '<nothing>'!r}, expected {want[first]!r}", case))
+        elif seen != [i for i, (_, d) in enumerate(cmds) if not d] or (ret != "ret" and not use_stub):   # stub_wrapper returns the open_run metadata
+            bad.append(("preprocessor:messages-or-return-value", f"passed on {seen}, returned {ret!r} for {cmds}", case))
+    return bad
+
+
+PROBE_JUDGES = [FP.plan_undisturbed]
+
+
 def run(ctx, model=True):
-    return E.run_property(ctx, "C13", oracle, gen=Gen(), quick=160, thorough=4000, model=model)
+    res = E.run_property(ctx, "C13", oracle, gen=Gen(), quick=160, thorough=4000, model=model)
+    FP.run_probes(ctx, res, PROBE_JUDGES, ["list-plan-suspension"], 12, 200)
+    n = ctx.budget(300, 5000)
+    res.count("impl-only-probe:msg_mutator-dropping-messages", n)
+    for sig, what, case in dropped_message_probe(ctx.rng, n):
+        res.violations.append(C.Violation(sig, "implementation-only probe: " + what, case))
+    return res
 
 
 def run_impl_only(ctx):
@@ -268,4 +321,13 @@ def run_impl_only(ctx):
 
 
 def replay(ctx, data):
+    if FP.is_probe(data):
+        return FP.replay_probe(ctx, data, PROBE_JUDGES)
+    if (data.get("case") or {}).get("probe") == "dropped-message":
+        import random
+
+        res = C.Result()
+        for sig, what, case in dropped_message_probe(random.Random(0), 2000):
+            res.violations.append(C.Violation(sig, what, case))
+        return res
     return E.replay_property(ctx, data, oracle)
